@@ -741,6 +741,18 @@ def c03(tier):
     rep.neg_controls.append({"spec_mutant": "no_too_small_guard", "expected_violation": "LocateFaithful", "found": found})
     if not found:
         raise ToolTrouble("spec mutant no_too_small_guard not detected")
+    if tier == "thorough":
+        # LocateFaithful for unbounded archives at the real limits (Apalache/SMT); without the record-too-small guard it must be refuted
+        ok, tail = apalache("LocateProof.tla", ["--init=AnyInit", "--inv=LocateFaithful", "--length=0"], wd, "locateproof")
+        if not ok:
+            log(tail)
+            raise ToolTrouble("Apalache did not discharge LocateProof!LocateFaithful")
+        bad, tail = apalache("LocateProof.tla", ["--init=AnyInit", "--inv=NoGuardFaithful", "--length=0"], wd, "locateproof-neg")
+        if bad or "Checker has found an error" not in tail:
+            log(tail)
+            raise ToolTrouble("Apalache did not refute LocateProof!NoGuardFaithful")
+        rep.neg_controls.append({"spec_mutant": "LocateProof without the record-too-small guard", "expected_violation": "NoGuardFaithful", "found": True})
+        rep.notes["apalache_obligations"] = {"obligations": 1, "discharged": 1, "spec": "LocateProof.tla (LocateFaithful for all naturals p, b, s, n, c, g at the real 16/32-bit limits)"}
     sd = vlib.seed()
     rnd = random.Random(sd * 9176 + 3)
     # spec -> impl: every tail shape of the model (those realisable below 4 GiB), materialised
